@@ -8,6 +8,10 @@
 //!   {"kind":"num-range","fn":f,"from":a,"to":b}             every n in a..=b   (f: itoa | hexized | hexized_bytes)
 //!   {"kind":"num-list","fn":f,"vals":[[l0,l1,l2,l3],..]}    the listed 64-bit values (base-2^16 limbs, least significant first)
 //!   {"kind":"num-random","fn":f,"seed":k,"n":n}             n seeded random 64-bit values (every bit length)
+//!   {"kind":"wire-cl","sizes":[..]}                         a real `Response::OK().with_text(<n bytes>)` sent through the real
+//!                                                           `Response::send`: the Content-Length value (itoa) and the Date header
+//!   {"kind":"wire-chunk","sizes":[..]}                      a real one-message SSE response: the chunk-size line (hexized_bytes,
+//!                                                           stripped by the writer) and the number of bytes that follow it
 //!
 //! For every element the REAL function is called and its output is *projected*, never judged:
 //!   dates: the 29-byte string is cut at the fixed field positions of `Www, DD Mon YYYY HH:MM:SS GMT`;
@@ -39,17 +43,7 @@ fn one_date(c: &mut DateCols, day: u64, sod: u64, full: bool) {
     match r {
         Ok(out) => {
             let b = out.as_bytes();
-            c.wd.push(text(cut(b, 0, 3)));
-            c.dd.push(digits(cut(b, 5, 7)));
-            c.mon.push(text(cut(b, 8, 11)));
-            c.yy.push(digits(cut(b, 12, 16)));
-            c.hh.push(digits(cut(b, 17, 19)));
-            c.mi.push(digits(cut(b, 20, 22)));
-            c.ss.push(digits(cut(b, 23, 25)));
-            c.len.push(b.len() as i64);
-            let mut f = Vec::new();
-            for (a, z) in [(3, 5), (7, 8), (11, 12), (16, 17), (19, 20), (22, 23), (25, usize::MAX)] { f.extend_from_slice(cut(b, a, z)) }
-            c.frame.push(text(&f));
+            push_date_fields(c, b);
             if full { c.chars.push(b.iter().map(|&x| x as i64).collect()) }
         }
         Err(_) => {
@@ -58,6 +52,90 @@ fn one_date(c: &mut DateCols, day: u64, sod: u64, full: bool) {
             if full { c.chars.push(vec![-1]) }
         }
     }
+}
+
+fn push_date_fields(c: &mut DateCols, b: &[u8]) {
+    c.wd.push(text(cut(b, 0, 3)));
+    c.dd.push(digits(cut(b, 5, 7)));
+    c.mon.push(text(cut(b, 8, 11)));
+    c.yy.push(digits(cut(b, 12, 16)));
+    c.hh.push(digits(cut(b, 17, 19)));
+    c.mi.push(digits(cut(b, 20, 22)));
+    c.ss.push(digits(cut(b, 23, 25)));
+    c.len.push(b.len() as i64);
+    let mut f = Vec::new();
+    for (a, z) in [(3, 5), (7, 8), (11, 12), (16, 17), (19, 20), (22, 23), (25, usize::MAX)] { f.extend_from_slice(cut(b, a, z)) }
+    c.frame.push(text(&f));
+}
+
+fn now() -> u64 { std::time::SystemTime::now().duration_since(std::time::UNIX_EPOCH).map(|d| d.as_secs()).unwrap_or(0) }
+
+/// the bytes of a real response as `Response::send` writes them
+fn send(res: ohkami::Response) -> Vec<u8> {
+    let mut w: Vec<u8> = Vec::new();
+    crate::util::block_on(async { ohkami::__verif::send(res, &mut w).await; });
+    w
+}
+
+/// wire-cl: Content-Length value bytes + Date header fields + the harness's own clock readings around the construction
+fn wire_cl(scn: &Value) -> Value {
+    let mut c = DateCols::default();
+    let (mut out, mut t0d, mut t0s, mut t1d, mut t1s, mut err) = (vec![], vec![], vec![], vec![], vec![], vec![]);
+    for sz in arr(&scn["sizes"]) {
+        let n = i(sz) as usize;
+        let r = std::panic::catch_unwind(|| {
+            let t0 = now();
+            let res = ohkami::Response::OK().with_text("x".repeat(n));
+            let t1 = now();
+            (t0, t1, send(res))
+        });
+        match r {
+            Ok((t0, t1, w)) => {
+                let p = crate::util::parse_response(&w, false);
+                let get = |name: &str| p.headers.iter().filter(|(k, _)| k.eq_ignore_ascii_case(name)).map(|(_, v)| v.clone()).collect::<Vec<_>>();
+                let (cl, date) = (get("Content-Length"), get("Date"));
+                if p.error.is_empty() && cl.len() == 1 && date.len() == 1 {
+                    out.push(cl[0].bytes().map(|x| x as i64).collect::<Vec<_>>());
+                    push_date_fields(&mut c, date[0].as_bytes());
+                    err.push(String::new());
+                } else {
+                    out.push(vec![]); push_date_fields(&mut c, b"");
+                    err.push(if !p.error.is_empty() { crate::util::clip(&p.error, 60) } else { format!("{} Content-Length, {} Date", cl.len(), date.len()) });
+                }
+                t0d.push((t0 / 86_400) as i64); t0s.push((t0 % 86_400) as i64); t1d.push((t1 / 86_400) as i64); t1s.push((t1 % 86_400) as i64);
+            }
+            Err(_) => { out.push(vec![-1]); push_date_fields(&mut c, b""); err.push("panic".into()); t0d.push(0); t0s.push(0); t1d.push(0); t1s.push(0) }
+        }
+    }
+    json!({"kind": "wire", "n": out.len(), "out": out, "err": err, "wd": c.wd, "dd": c.dd, "mon": c.mon, "yy": c.yy, "hh": c.hh, "mi": c.mi, "ss": c.ss,
+           "len": c.len, "frame": c.frame, "t0day": t0d, "t0sod": t0s, "t1day": t1d, "t1sod": t1s})
+}
+
+/// wire-chunk: the first chunk-size line of a one-message event stream and the number of bytes up to the chunk's closing CRLF
+fn wire_chunk(scn: &Value) -> Value {
+    let (mut out, mut follow, mut err) = (vec![], vec![], vec![]);
+    for sz in arr(&scn["sizes"]) {
+        let n = (i(sz) as usize).max(8) - 8;       // "data: " + payload + "\n\n"
+        let r = std::panic::catch_unwind(|| send(ohkami::Response::OK().with_stream(ohkami_lib::stream::once("y".repeat(n)))));
+        match r {
+            Ok(w) => {
+                // head, then  <size line> CRLF <data> CRLF "0" CRLF CRLF   (one chunk): located from both ends, independently of the size line's value
+                let tail: &[u8] = b"\r\n0\r\n\r\n";
+                let parts = crate::util::find(&w, b"\r\n\r\n").and_then(|he| {
+                    let rest = &w[he + 4..];
+                    let le = crate::util::find(rest, b"\r\n")?;
+                    if !rest.ends_with(tail) || rest.len() < le + 2 + tail.len() { return None }
+                    Some((rest[..le].to_vec(), rest.len() - (le + 2) - tail.len()))
+                });
+                match parts {
+                    Some((line, data)) if data < (1usize << 31) => { out.push(line.iter().map(|&x| x as i64).collect::<Vec<_>>()); follow.push(data as i64); err.push(String::new()) }
+                    _ => { out.push(vec![]); follow.push(0); err.push("no single chunk found".into()) }
+                }
+            }
+            Err(_) => { out.push(vec![-1]); follow.push(0); err.push("panic".into()) }
+        }
+    }
+    json!({"kind": "wire", "n": out.len(), "out": out, "follow": follow, "err": err})
 }
 
 fn dates_obs(c: DateCols, full: bool, echo: bool) -> Value {
@@ -125,6 +203,8 @@ pub fn run(scn: &Value) -> Value {
             if kind == "num-random" { o["vals"] = json!(vals.iter().map(|&v| limbs(v)).collect::<Vec<_>>()) }
             o
         }
+        "wire-cl" => wire_cl(scn),
+        "wire-chunk" => wire_chunk(scn),
         _ => json!({"kind": "tool-error", "what": format!("unknown scenario kind {kind:?}")}),
     }
 }
